@@ -207,6 +207,12 @@ def avgLoop (tol : Rat) : Nat → List (List Rat) → Option (List Rat)
 def average1D (rows : List (List Rat)) (tol : Rat) : Option (List Rat) :=
   avgLoop tol (rows.length + 1) rows
 
+/-- `UniformMeshGenerator._computeAverageAxialMesh`: the meshes (without their first point) of the assemblies
+that have as many mesh points as the reference assembly, averaged by `average1DWithinTolerance` with its
+default tolerance 0.2 -/
+def averageAxialMesh (refN : Nat) (meshes : List (List Rat)) : Option (List Rat) :=
+  average1D (meshes.filter (fun m => m.length == refN)) (1 / 5)
+
 /-! ### `resampleStepwise` -/
 
 /-- Python `l[a:b]` for integer (possibly negative) bounds -/
@@ -340,6 +346,14 @@ def decusp (m : Rat) (common fuelB fuelT ctrlB ctrlT : List Rat) : Option (List 
   | _ => none
 
 /-! ### mass-conserving block mesh change (`Block.setHeight` / `adjustDensity`, `Assembly.setBlockMesh`) -/
+
+/-- `UniformMeshGenerator.generateCommonMesh`: the average mesh, de-cusped when a minimum size is given -/
+def generateCommonMesh (m : Option Rat) (refN : Nat) (meshes : List (List Rat)) (fuelB fuelT ctrlB ctrlT : List Rat) :
+    Option (List Rat) := do
+  let avg ← averageAxialMesh refN meshes
+  match m with
+  | none => some avg
+  | some m => decusp m avg fuelB fuelT ctrlB ctrlT
 
 /-- `units.TRACE_NUMBER_DENSITY`: "add a little so components remember" -/
 def TRACE : Rat := 1 / 100000000000000000000000000000000000000000000000000
